@@ -318,6 +318,25 @@ def run_lemmas(ck, name, lemmas, per_file, timeout=900, header=None):
     return bad, broken
 
 
+EXPECTED_AXIOMS = {'Coq.Logic.FunctionalExtensionality.functional_extensionality_dep',
+                   'Coq.Reals.ClassicalDedekindReals.sig_not_dec', 'Coq.Reals.ClassicalDedekindReals.sig_forall_dec',
+                   'Coq.Logic.Classical_Prop.classic'}
+
+
+def run_coqchk(ck, logical):
+    """thorough tier: the compiled property file re-checked by the independent checker"""
+    from lib import sh, COQ
+    rc, out = sh(['coqchk', '-silent', '-o', '-Q', 'theories', 'GV', logical], cwd=COQ, timeout=1500)
+    m = re.search(r'\* Axioms:(.*?)\n\s*\n', out, flags=re.S)
+    axioms = set(re.findall(r'(Coq\.\S+)', m.group(1))) if m else set()
+    clean = all(f'{w}: <none>' in out for w in ('relying on type-in-type', 'relying on unsafe (co)fixpoints',
+                                                'whose positivity is assumed'))
+    ok = rc == 0 and clean and axioms <= EXPECTED_AXIOMS
+    ck.obligations.append({'name': f'coqchk {logical}', 'kind': 'coqchk', 'ok': ok, 'detail': '' if ok else out[-800:]})
+    ck.cov['coqchk'] = {'ok': ok, 'axioms': sorted(axioms)}
+    return ok
+
+
 # ------------------------------------------------------------------ generators
 def gen_pairs(rng, n):
     """(class, p, q) with canonical coordinates"""
@@ -564,6 +583,8 @@ def main():
     rep = {k: v for k, v in rep.items() if not k.startswith('g_curve_')}
     geneq_ok = ck.gen('SphereGen.v', rep, 'SphereGenEq.v')
     ck.props('Props/C07.v')
+    if ck.tier == 'thorough':
+        run_coqchk(ck, 'GV.Props.C07')
 
     rng = ck.rng
     quick = ck.tier == 'quick'
